@@ -52,6 +52,7 @@ import (
 	"encoding/json"
 	"fmt"
 	"os"
+	"runtime/debug"
 	"time"
 
 	"verifmc/core"
@@ -82,16 +83,31 @@ func main() {
 		"transactions are brought into existence by decoding the txdata wire layout (the only way a foreign transaction arises); the JSON form documents two refusals (version != 1, signature length != 65) which are not counted as round-trip failures",
 		"the codec is pure: goroutine parallelism does not influence any verdict",
 	}
+	// own deadline inside the tier's wall budget (the machine may be shared): quick 105 s, thorough 18 min
+	if lim := 105 * time.Second; !core.Thorough() && core.Opt.Budget > lim {
+		core.Opt.Budget = lim
+	}
+	if lim := 18 * time.Minute; core.Thorough() && core.Opt.Budget > lim {
+		core.Opt.Budget = lim
+	}
+	debug.SetGCPercent(400) // allocation-heavy, tiny live heap
 	t0 := time.Now()
-	decoderSide(r)
-	r.Extra["wall_decoder_s"] = time.Since(t0).Seconds()
-	t0 = time.Now()
 	encoderSide(r)
 	r.Extra["wall_encoder_s"] = time.Since(t0).Seconds()
 	t0 = time.Now()
 	addressSide(r)
 	r.Extra["wall_address_s"] = time.Since(t0).Seconds()
+	t0 = time.Now()
+	decoderSide(r)
+	r.Extra["wall_decoder_s"] = time.Since(t0).Seconds()
 	publish(r)
+	g := globalAcc.counters
+	r.Extra["address_text_mutations"] = map[string]interface{}{
+		"rejected":                     g["address_mutations_rejected"],
+		"accepted_as_the_same_address": g["address_mutations_accepted_same_address"],
+		"accepted_as_another_address":  g["address_mutations_accepted_other_address"],
+		"note":                         "information only: the check byte is a single xor over the 20 address bytes, so a substituted or transposed text can be the valid text of another address; the property states only the round trip",
+	}
 	coverageSelfCheck(r)
 	core.Finish(r)
 }
